@@ -262,6 +262,17 @@ def cert_wellformed(cert: dict) -> bool:
     return cert_malformed(cert) is None
 
 
+def is_ticket(cert: dict) -> bool:
+    """TS 103 097 clause 7.2.1 authorization-ticket profile: issued (not self-signed), id 'none', no
+    certIssuePermissions, appPermissions present."""
+    try:
+        t = cert["toBeSigned"]
+        return (cert["issuer"][0] in ("sha256AndDigest", "sha384AndDigest") and t["id"][0] == "none"
+                and "certIssuePermissions" not in t and "appPermissions" in t)
+    except Exception:  # noqa: BLE001
+        return False
+
+
 def link_ok(cert: dict, issuer: dict) -> bool:
     """``cert`` names ``issuer`` by digest and its signature verifies under the issuer's key."""
     iss = cert.get("issuer", (None, None))
@@ -360,6 +371,8 @@ def classify(sec: bytes, trust: Trust, known_ats: dict, check_perms=False, stric
         if loose is not None:       # signatures verify, a field outside the signed part is invalid
             why = "chain_malformed_certificate:" + ",".join(sorted({cert_malformed(c) for c in loose if cert_malformed(c)}))
         return Verdict(authentic=False, why=why, signer=h8(at), at=at, **base)
+    if not is_ticket(at):
+        return Verdict(authentic=False, why="signer_not_a_ticket", signer=h8(at), at=at, **base)
     conv = signature_ok(cert_pub(at), enc_tbs_data(tbs), sd.get("signature"), enc_cert(at))
     if conv is None:
         return Verdict(authentic=False, why="signature", signer=h8(at), at=at, **base)
